@@ -18,6 +18,12 @@ import subprocess
 from .. import common as C
 from ..flow import Flow
 
+# Which variant of cast_num the extracted model mirrors.  "0": the code before the repair of finding
+# C08-1 (sextend only when both types are signed); "1": the repaired code (.cache/prompts/C08-1-fix.diff,
+# extend by the source type's signedness).  Set the default to "1" once the repair is committed in /repo.
+CAST_FIXED = os.environ.get("VERIF_C08_CAST_FIXED", "1") == "1"
+DRV_ARGS = ["fixed"] if CAST_FIXED else []
+
 INT_TYPES = {}
 for _w in (8, 16, 32, 64, 128):
     INT_TYPES["i%d" % _w] = (True, _w)
@@ -329,7 +335,7 @@ def mixed_table(drv):
     """ask the model which (l, r) pairs of distinct integer types have a common type"""
     nums = PLAIN_INTS + list(FLOAT_TYPES)
     pairs = [(l, r) for l in nums for r in nums if l != r]
-    res = C.run_lines([drv], ["B %s %s + 0 0" % p for p in pairs], indexed=False)
+    res = C.run_lines([drv] + DRV_ARGS, ["B %s %s + 0 0" % p for p in pairs], indexed=False)
     ok = {}
     for p, line in zip(pairs, res):
         m = line.split()[0]
@@ -361,7 +367,7 @@ def run(tier, seed):
         mixed_max = mixed_table(drv)
         # i128/u128 vs isize/usize: Ty::max picks the pointer-sized type; keep them (truncation is modelled)
         mixed_pairs = sorted(mixed_max)
-        nprog = 48 if tier == "quick" else 500
+        nprog = 48 if tier == "quick" else 300
         per = 200
         rng = fl.rng.fork("ops")
         # corpus first
@@ -373,7 +379,7 @@ def run(tier, seed):
                     corpus += [tuple(x) for x in json.load(open(os.path.join(cdir, f)))["cases"]]
         allcases = corpus + gen_cases(rng, nprog * per, mixed_pairs)
         lines = [case_line(c) for c in allcases]
-        pred = C.run_lines([drv], lines, indexed=False)
+        pred = C.run_lines([drv] + DRV_ARGS, lines, indexed=False)
         keep = []
         trapcases = []
         skipped = {"model-crash": 0, "trap": 0}   # "trap": run one per program in the singles stream
@@ -461,7 +467,7 @@ def run(tier, seed):
                  ("B", "u128", "u128", "%", 7, 2), ("B", "f32", "f32", "&", 0x3f800000, 0x40490fdb),
                  ("B", "f64", "f64", "~", 0x3ff0000000000000, 0x4000000000000000)]
         tsel += [(c, case_line(c)) for c in fixed]
-        tpred = C.run_lines([drv], [l for _, l in tsel], indexed=False)
+        tpred = C.run_lines([drv] + DRV_ARGS, [l for _, l in tsel], indexed=False)
 
         def single_prog(c):
             out = [prelude(), "main :: () {"]
@@ -526,6 +532,7 @@ def run(tier, seed):
         "operands are materialised by reinterpreting u64 bit patterns through pointers, results are read back "
         "byte-wise; the Capy printer uses only u8 >> 4, u8 & 15, u8->usize, array indexing and putchar",
         "weak ({int}/{uint}/{float}) operand types are outside the theorems (C09 covers literal defaulting)",
+        "CAST_FIXED=%s (variant of cast_num mirrored by the model: 1 = repaired, finding C08-1 fixed)" % CAST_FIXED,
     ]
     return fl.finish()
 
